@@ -227,6 +227,15 @@ def device_run(built, inputs):
     return store, sim, fault, ctx.steps
 
 
+def region_index(built, node_id):
+    """Position of a data region (by identity) in walk order."""
+    from psyclone.psyir.nodes import ACCDataDirective
+    for k, node in enumerate(built["lowered"].walk(ACCDataDirective)):
+        if id(node) == node_id:
+            return k
+    return None
+
+
 def judge(built, inputs, ref):
     store, sim, fault, steps = device_run(built, inputs)
     info = {"steps": steps, "moves": dict(sim.moves),
@@ -248,6 +257,8 @@ def judge(built, inputs, ref):
             vios.append({"class": "undefined-device-value-used-in-control",
                          "observed": {"fault": fault,
                                       "array": sim.undefined_reads[0][0],
+                                      "region": region_index(
+                                          built, sim.undefined_reads[0][4]),
                                       "undefined_reads": [
                                           list(u[:3]) for u in
                                           sim.undefined_reads[:3]]}})
@@ -255,11 +266,12 @@ def judge(built, inputs, ref):
                 sim.copied_back:
             # an undefined value that an earlier region copied back to the
             # host reached a control decision later on
-            name, offs, mode, _ = sim.copied_back[0]
+            name, offs, mode, _, reg = sim.copied_back[0]
             vios.append({"class":
                          "undefined-device-values-copied-back-to-host",
                          "observed": {"array": name, "offsets": offs,
                                       "clause": mode,
+                                      "region": region_index(built, reg),
                                       "later_fault": fault}})
         else:
             vios.append({"class": "device-run-only-fault:" + fault[0],
@@ -267,17 +279,19 @@ def judge(built, inputs, ref):
         return vios, info
     anomalies = []
     if sim.undefined_reads:
-        name, off, written, when = sim.undefined_reads[0]
+        name, off, written, when, reg = sim.undefined_reads[0]
         anomalies.append((when, {
             "class": "device-read-of-undefined-element",
             "observed": {"array": name, "offset": off,
+                         "region": region_index(built, reg),
                          "element_written_on_device_before": written,
                          "count": len(sim.undefined_reads)}}))
     if sim.copied_back:
-        name, offs, mode, when = sim.copied_back[0]
+        name, offs, mode, when, reg = sim.copied_back[0]
         anomalies.append((when, {
             "class": "undefined-device-values-copied-back-to-host",
-            "observed": {"array": name, "offsets": offs, "clause": mode}}))
+            "observed": {"array": name, "offsets": offs, "clause": mode,
+                         "region": region_index(built, reg)}}))
     # the earliest anomaly is the root cause; later ones are consequences
     # (an undefined value copied back by one region is read by the next)
     for _, vio in sorted(anomalies, key=lambda a: a[0])[:1]:
@@ -314,7 +328,10 @@ def features(prog, recipe, built, vio):
     name = name.strip("'\"")
     feats["array"] = name
     from psyclone.psyir.nodes import ACCDataDirective, Call
-    for node in built["lowered"].walk(ACCDataDirective):
+    want = vio["observed"].get("region")
+    for k, node in enumerate(built["lowered"].walk(ACCDataDirective)):
+        if want is not None and k != want:
+            continue
         cl = built["clauses"][id(node)]
         for mode in ("copyin", "copyout", "copy"):
             if name in cl[mode]:
